@@ -39,10 +39,10 @@ type Engine struct {
 	maxSteps int
 	maxDepth int
 
-	known   map[string]bool // open known-finding ids
-	params  map[string]int
-	timeout int
-	seed    int
+	known      map[string]bool // open known-finding ids
+	params     map[string]int
+	timeout    int
+	seed       int
 	solverKind string
 }
 
